@@ -1,6 +1,6 @@
 (* For a time-sorted heap that is a permutation of all the events of a plan, applying its groups of simultaneous
    entries ([run_groups], the model) is the reference run over the happening times in increasing order ([run_times]). *)
-From Coq Require Import List ZArith NArith QArith Qcanon Bool Lia Lra Lqa Permutation.
+From Coq Require Import List ZArith NArith QArith Qcanon Bool Lia Lqa Permutation.
 Import ListNotations.
 Require Import UPV.Core.Expr UPV.Core.Eval UPV.Core.Interp UPV.Planning.Problem UPV.Planning.Sem.
 Require Import UPV.Planning.Temporal UPV.Planning.TTValidate.
